@@ -36,7 +36,8 @@ CHECKS = {
               "nestings over real abTEM keys (dict values, keyword form, exceptions at every depth, failing constructors) are "
               "run on the real global abtem.config and the full flattened configuration after every event is validated by "
               "ConfigTrace.tla."
-              " Growth (drift only): ConfigThreads.tla - contexts of two threads interleaving on the global configuration; TLC shows restoration holds for globally nested interleavings and disjoint keys and fails otherwise; emitted interleavings replayed with real threads."),
+              " Growth (drift only): ConfigThreads.tla - contexts of two threads interleaving on the global configuration; TLC shows restoration holds for globally nested interleavings and disjoint keys and fails otherwise; emitted interleavings replayed with real threads."
+              " Batch 8: a quarter of the random nestings run on contexts created with config=<a dictionary of the caller's>; the recorded state is then the pair (that dictionary, the global configuration)."),
         technique="TLA+ refinement check (TLC) + spec-generated nestings replayed on the real config + TLC trace validation",
         design_ref="DESIGN.md 5 C34",
         note=NOTE_COMMON + " LIFO nestings only; values compared by (type, repr).",
@@ -47,7 +48,8 @@ CHECKS = {
               "of Units.tla for every path of up to 4 (thorough 5) units within each category, and emits every path; each "
               "path is walked on the real get_conversion_factor and LinearAxis.convert_units (three sampling/offset pairs) "
               "and the logged deviations chain-vs-direct and round-trip-vs-identity are decided by UnitsTrace.tla.  The "
-              "enumeration is exhaustive for the unit set the library declares."),
+              "enumeration is exhaustive for the unit set the library declares."
+              " Batch 8: samplings / offsets that happen to be integers (Python and NumPy)."),
         technique="TLA+ model of the unit table checked with TLC; TLC-enumerated conversion paths executed on the real code; TLC trace validation",
         design_ref="DESIGN.md 5 C33",
         note=NOTE_COMMON + " Deviations are computed in float64 by the harness and logged in parts per billion; tolerance 1e-6.",
@@ -101,7 +103,8 @@ CHECKS = {
               "normalisations, negation of each, divide eager/lazy) and DistTrace.tla decides exact rational spacing, symmetry, "
               "limits, negation and partition; the Gaussian profile and the unit norm/sum are logged as deviations against an "
               "independent evaluation and bounded by the spec."
-              " Anisotropic 2-D distributions (joint weights = outer product of the per-axis weights in the axis order of the values) and stability of an existing distribution under later creations."),
+              " Anisotropic 2-D distributions (joint weights = outer product of the per-axis weights in the axis order of the values) and stability of an existing distribution under later creations."
+              " Batch 8: arguments as NumPy scalars / 0-d arrays, distributions through copy / deepcopy / pickle, tuple sample counts with a single-sample axis."),
         technique="TLA+ model of the value grids (TLC) + TLC-enumerated cases executed on the real code + TLC trace validation over exact rationals",
         design_ref="DESIGN.md 5 C36",
         note=NOTE_COMMON + " exp() is evaluated by numpy in the harness (profile/norm deviations, tolerance 2e-6).",
@@ -324,7 +327,8 @@ CHECKS = {
               "harness' argument table is called (methods without an entry are listed in the evidence as not exercised).  The "
               "frame condition snapshot(input) before = after (positions, cell, numbers, pbc, tags, constraints, info / array "
               "bytes, dtype, metadata, axes metadata) is decided by OwnershipTrace.tla for every call, whether or not it raises."
-              " Batch 8 (growth): Rebuild.tla is checked here and 25 kinds of objects with non-default constructor arguments are sent along every route they offer (rebuilt from _copy_kwargs, copy, deepcopy, pickle) and compared field by field (drift only)."),
+              " Batch 8 (growth): Rebuild.tla is checked here and 25 kinds of objects with non-default constructor arguments are sent along every route they offer (rebuilt from _copy_kwargs, copy, deepcopy, pickle) and compared field by field (drift only)."
+              " Operators are methods too: indexing (twice), arithmetic and negation on measurements whose ensemble axes are a tilt and a thickness series."),
         technique="TLA+ frame condition over a TLC-enumerated call space; snapshots of caller-owned inputs around every real call validated by a TLC trace spec",
         design_ref="DESIGN.md 5 C32",
         note=NOTE_COMMON + " The state machine content of this property is a single frame condition; TLC's share is the enumeration and the verdicts.",
@@ -367,7 +371,8 @@ CHECKS = {
               "result must be Freq(n, a) in integer arithmetic with a zero other component; a random normalised pattern checks the "
               "weighted mean; integrate_gradient is applied to analytic gradients of single Fourier modes and must reproduce the "
               "field up to a constant (logged deviation)."
-              " Round 3: lazy gradients chunked along the base axes."),
+              " Round 3: lazy gradients chunked along the base axes."
+              " Batch 8: every evaluation mode (eager, one block, chunked along x, y, both) for every Fourier mode; patterns of integer dtype (counts) - which uncovered the repaired defect f7f0b089 (center_of_mass returned the first moment); patterns through copy / deepcopy / pickle."),
         technique="TLA+ frequency-layout model (TLC) + single-bright-pixel decoding of the real center_of_mass + TLC trace validation",
         design_ref="DESIGN.md 5 C40",
         note=NOTE_COMMON + " center_of_mass returns the first moment; it is compared with the weighted mean for patterns of unit total intensity only.",
@@ -381,7 +386,8 @@ CHECKS = {
               "doses; NoiseTrace.tla decides: non-negative whole counts, mean and variance z-scores within 6 sigma of dose x "
               "signal, reproducibility, lazy = eager, independence of chunking, and that no two members with equal expectation are "
               "bit-identical."
-              " Round 3: seed 0, dose series, pairwise independence of the members of one block (standardised residuals, 6 sigma)."),
+              " Round 3: seed 0, dose series, pairwise independence of the members of one block (standardised residuals, 6 sigma)."
+              " Batch 8: the measurement through a copy / deepcopy / pickle and the dose as a NumPy scalar give the same noise for the same seed."),
         technique="TLA+ stream-assignment model (TLC) + TLC-enumerated chunkings on the real noise transform + TLC trace validation",
         design_ref="DESIGN.md 5 C31",
         note=NOTE_COMMON + " Statistical independence is operationalised as 'no bit-identical members' plus first/second moments; the chunk-dependence clauses for a shared block seed are a recorded known finding.",
@@ -447,7 +453,8 @@ CHECKS = {
               "vacuum with and without tilt; TiltTrace.tla decides per ensemble member: decoded integer shift (cross-correlation) = "
               "the rational computed from the logged tangent and thickness list, tilted == shifted untilted (np.roll / Fourier "
               "shift), tilted plane wave modulus one, lazy == eager."
-              " Round 3: tilts accumulated by successive tilt transforms on already tilted waves, stratified quick tier."),
+              " Round 3: tilts accumulated by successive tilt transforms on already tilted waves, stratified quick tier."
+              " Batch 8: the probe builder through a copy / deepcopy / pickle round trip."),
         technique="TLA+ model of tilt accumulation and kernel axis layout checked by TLC against the property-level spec; TLA+ scenario enumeration; TLC trace validation of tilted-vs-untilted differential runs with exact rational shifts",
         design_ref="DESIGN.md 5 C39",
         note=NOTE_COMMON + " Tolerance 5e-5 (float32). The plane-wave modulus clause is weak in abTEM (a tilted PlaneWave has only the k = 0 component, which the ramp leaves unchanged).",
@@ -480,7 +487,8 @@ CHECKS = {
               "array (accuracy 2/4/6, grids 5x4, 7x7, 3x6, 6x9, spacings (1,1), (1/2,1), (2/3,1/2)) -> weights in fixed point, compared "
               "by TLC with the exact rationals (tolerance 2e-4) and for missing periodic neighbours; plane waves for accuracies 2..18 on "
               "square and rectangular samplings vs the analytic eigenvalue; probes through vacuum with RealSpaceMultislice (accuracy "
-              "2/6/8 x order 1-3 x scope propagator/full) for intensity conservation and lazy == eager."),
+              "2/6/8 x order 1-3 x scope propagator/full) for intensity conservation and lazy == eager."
+              " Batch 8: a process history in two fresh interpreters - a real-space run under a configured antialias aperture with and without an earlier run on the same grid under the shipped configuration."),
         technique="TLA+ model of the finite-difference stencil (padding, loop, coefficient indexing, prefactors) checked by TLC against exact rational Laplacian weights; TLC trace validation of one-hot operator columns, eigenvalue and vacuum runs of the real code",
         design_ref="DESIGN.md 5 C37",
         note=NOTE_COMMON + " Accuracies above 18 need sympy, which the sandbox lacks, and are not exercised. Tolerance 5e-5 on eigenvectors and intensities.",
@@ -496,7 +504,8 @@ CHECKS = {
               "observed condition = lattice sum, F(-h) = conj F(h), every reflection with L(h) = 0 has |F| below tolerance (computed "
               "with the filter off), the table built with the crystal's centering holds exactly the allowed reflections, a lattice "
               "translation of all atoms leaves F unchanged, the reconstructed potential is real, lazy == eager."
-              " Round 3: centering = 'auto' (no reflection left out may carry a structure factor), crystals with one species on a centred sub-lattice, few-kB dask chunk-size."),
+              " Round 3: centering = 'auto' (no reflection left out may carry a structure factor), crystals with one species on a centred sub-lattice, few-kB dask chunk-size."
+              " Batch 8: the projected potential on the native grid and on a grid asked for explicitly: grid points x sampling = cell length on both axes (clause reconstructed_potential_is_not_periodic_in_the_cell)."),
         technique="TLA+ lattice-sum specification of reflection conditions with an implementation-shaped model checked by TLC; TLC trace validation of structure factors of real crystals against the lattice sum",
         design_ref="DESIGN.md 5 C27",
         note=NOTE_COMMON + " Periodicity of the reconstructed potential is inherent in the discrete Fourier synthesis and is not separately observed. Tolerance 5e-5 (double precision).",
@@ -509,7 +518,8 @@ CHECKS = {
               "equations; quick: one per crystal + 6), thickness list (0, 37, 120, 455.5 A): BlochTrace.tla decides sum of intensities "
               "= 1 per thickness, zero thickness = direct beam, structure matrix Hermitian, lazy == eager, |S[:, 0]|^2 of the "
               "matrix-exponential scattering matrix = the eigendecomposition intensities."
-              " Round 3: thickness lists descending, unsorted and with a repeated entry."),
+              " Round 3: thickness lists descending, unsorted and with a repeated entry."
+              " Batch 8: dyn source classes - builder, prebuilt, prebuilt_reordered (a user-assembled StructureFactorArray with the reflections in another order; beams are matched by Miller indices) and builder_occupancy (partial occupancies and thermal sigmas carried into the lazy tasks)."),
         technique="TLA+ model of the structure-factor lookup preconditions checked by TLC; TLA+ scenario enumeration and acceptance predicate; TLC trace validation of dynamical diffraction runs",
         design_ref="DESIGN.md 5 C26",
         note=NOTE_COMMON + " Known finding C26-tilted-M-matrix: off the zone axis the two paths differ by ~1e-4 and sums deviate by up to 3e-4. Tolerance 5e-5 (double precision).",
@@ -528,7 +538,8 @@ CHECKS = {
               "operator classes (6 variants x shapes x wave classes x amplitude classes x precision), a stratified sample of the 12288 "
               "update-at-the-truth cases (truth built by an independent numpy forward model for integer positions), and real "
               "reconstruct() runs whose step functions are wrapped by recorders; PtychoTrace.tla validates every observation and every "
-              "recorded run against the loop machine."),
+              "recorded run against the loop machine."
+              " Batch 8: position classes with a sub-pixel offset along one axis only."),
         technique="TLA+ model of position conversion, window indices, function queue and reconstruction loop checked by TLC against the property-level contracts; TLC-emitted cases replayed on the real operators; TLC trace validation of recorded reconstruct() runs",
         design_ref="DESIGN.md 5 C28, 10.9",
         note=NOTE_COMMON + " Numeric contracts are evaluated by numpy in complex128 and logged in parts per billion (tolerance 5e-5 single / 1e-7 double); alpha = 0 only with probes without small-modulus pixels; growth_* clauses (loop order, raster, window) are reported as model drift, never as violations.",
@@ -545,7 +556,8 @@ CHECKS = {
               "full configuration (numpy; fftw x ESTIMATE/MEASURE/PATIENT (thorough: EXHAUSTIVE) x threads 1/2) x float32/float64 x 17 "
               "concrete pipelines from a fresh planner, plus TLC-emitted sessions (one per distinct abstract state; stratified seeded "
               "sample, 140 quick / 1500 thorough) replayed with the real abtem.config.set and the planner's wisdom kept inside the "
-              "session; BackendTrace.tla judges every run against the configuration the LIFO semantics puts in effect."),
+              "session; BackendTrace.tla judges every run against the configuration the LIFO semantics puts in effect."
+              " Batch 8: pipeline waves_normalize_modes (Waves.normalize in place or not, real- and reciprocal-space waves)."),
         technique="TLA+ session model of FFT dispatch, planner wisdom and configuration contexts checked by TLC; TLC-emitted sessions replayed on the real library; TLC trace validation of every run against the session machine",
         design_ref="DESIGN.md 5 C38, 10.9",
         note=NOTE_COMMON + " Metamorphic oracle (same code under numpy/float64): a change affecting every configuration alike is invisible here. mkl_fft and cupy are not installed. fftw.planning_timelimit is lowered for the replay. Known finding C38-prism-single-precision-core.",
